@@ -1,7 +1,7 @@
 #!/usr/bin/env python3
 """C18 regression: stand-alone replays of the five repaired findings (F1-F5) on REAL file systems.
 
-usage:  GIVERIF_REPO=<tree> /venv/bin/python c18_replays.py [F0 F1 F2 F3 F4 F5]
+usage:  GIVERIF_REPO=<tree> /venv/bin/python c18_replays.py [F0 F1 F2 F3 F4 F5 M1 R1]
 (run by harness/c18.py in every tier; each line of output is  <tag> ok|VIOLATED|skipped <key> / details)
 
 Only the giscanner code of <tree> is run (Transformer._parse_include / CacheStore.store / load and the
@@ -16,6 +16,8 @@ device, so that a rename from TMPDIR into the cache directory really fails with 
   F3 TMPDIR on another device: a loader discards the half-copied entry, the store must not raise (c939313)
   F4 TMPDIR on another device: the entry must not be visible with a fresh mtime before it is stamped (c939313)
   F5 the .gir is replaced by a file carrying an mtime older than the entry (fae7ad8)
+  M1 (only when asked for) two different files named by '../Dep-1.0.gir' and 'Dep-1.0.gir' carry one mtime: each
+     scanner must see the file it names (no finding of the unchanged tree; guards the entry-name function)
   R1 (only when asked for) the recorded finding: a new version carrying the SAME mtime as the version just read
 
 exit 0: no finding reproduces;  1: at least one does.
@@ -362,18 +364,61 @@ def r1_same_mtime():
         e.close()
 
 
+def m1_other_file():
+    """two DIFFERENT dependency GIRs, both called Dep-1.0.gir, both carrying the same mtime (install -p, tar,
+    SOURCE_DATE_EPOCH), named by relative paths that differ only in leading '.' and '/' characters: a scanner run
+    in <root>/sub includes '../Dep-1.0.gir', later scanners there include 'Dep-1.0.gir' and './Dep-1.0.gir'
+    (--include-uninstalled hands the spelling to Transformer._parse_include unchanged).  Each must see the
+    contents of the file it names."""
+    e = Env(False)
+    cwd = os.getcwd()
+    try:
+        sub = os.path.join(e.root, 'sub')
+        os.makedirs(sub)
+        write(os.path.join(e.root, 'Dep-1.0.gir'), V1)      # ../Dep-1.0.gir
+        write(os.path.join(sub, 'Dep-1.0.gir'), V2)         # Dep-1.0.gir, ./Dep-1.0.gir
+        old = int(time.time()) - 3600
+        for f in (os.path.join(e.root, 'Dep-1.0.gir'), os.path.join(sub, 'Dep-1.0.gir')):
+            os.utime(f, (old, old))
+        os.chdir(sub)
+        seen = []
+        for spelling, want in (('../Dep-1.0.gir', OLD), ('Dep-1.0.gir', NEW), ('./Dep-1.0.gir', NEW),
+                               ('../Dep-1.0.gir', OLD), (os.path.join(sub, 'Dep-1.0.gir'), NEW),
+                               (os.path.join(sub, 'Dep-1.0.gir')[1:], None)):
+            if want is None:
+                # the relative spelling that equals the absolute one without its leading '/': a third file
+                os.makedirs(os.path.dirname(spelling))
+                write(spelling, GIR % dict(rec='ThirdRecord', alias='ThirdAlias'))
+                os.utime(spelling, (old, old))
+                want = ['ThirdAlias', 'ThirdRecord']
+            t = M.transformer.Transformer(M.ast.Namespace('Main', '1.0'))
+            assert t._cachestore is not None
+            got = names(t._parse_include(spelling))
+            seen.append((spelling if not spelling.startswith('/') else '<abs>/sub/Dep-1.0.gir', got, got == want))
+        bad = [x for x in seen if not x[2]]
+        return bool(bad), ('scanners in <root>/sub, all files carry one mtime: ' +
+                           '; '.join('%s -> %s%s' % (sp if len(sp) < 40 else '<abs without its leading />/sub/Dep-1.0.gir',
+                                                     got, '' if ok else ' (NOT the contents of that file)')
+                                     for sp, got, ok in seen))
+    finally:
+        os.chdir(cwd)
+        e.close()
+
+
 ALL = [('F0', 'sanity:an-unchanged-file-is-served-from-the-cache', f0_effective),
        ('F1', 'repaired:parse-read-before-modification-stamped-at-store-time', f1_stamp),
        ('F2', 'repaired:source-modified-within-the-timestamp-of-the-entry', f2_equal),
        ('F3', 'repaired:cross-device-copystat-after-entry-unlinked', f3_xdev_raise),
        ('F4', 'repaired:cross-device-entry-visible-before-copystat', f4_xdev_stale),
        ('F5', 'repaired:source-replaced-by-a-file-carrying-an-older-mtime', f5_older_mtime),
+       ('M1', 'multi-source:entry-of-another-file-with-the-same-mtime', m1_other_file),
        ('R1', 'C18_fresh:two-source-versions-with-one-mtime-and-a-read-in-between', r1_same_mtime)]
 DEFAULT = ['F0', 'F1', 'F2', 'F3', 'F4', 'F5']
 
 
 def main():
     want = sys.argv[1:] or DEFAULT
+    sys.argv[0] = os.path.abspath(sys.argv[0])      # an input of the cache version hash; M1 changes directory
     rc = 0
     print('tree: %s' % REPO)
     for tag, key, fn in ALL:
